@@ -3,8 +3,12 @@ package main
 import (
 	"fmt"
 	"os"
+	"slices"
+	"sort"
 	"strconv"
+	"strings"
 	"sync"
+	"time"
 
 	"seehuhn.de/go/sfnt"
 	"seehuhn.de/go/sfnt/glyf"
@@ -221,7 +225,7 @@ func runCase(f *sfnt.Font, fontID string, c Case, cold bool, emit func(map[strin
 		done[g] = make(chan struct{}, len(progs[g]))
 		digests[g] = make([]string, len(progs[g]))
 		wg.Add(1)
-		go worker(f, progs[g], start[g], done[g], digests[g], &wg)
+		go worker(f, progs[g], start[g], done[g], digests[g], &wg, time.Duration(c.LoopMS)*time.Millisecond)
 	}
 	for _, e := range sched {
 		if e.start {
@@ -242,11 +246,29 @@ func runCase(f *sfnt.Font, fontID string, c Case, cold bool, emit func(map[strin
 }
 
 // worker is one goroutine of a case: it performs its calls in order, each when released.
-func worker(f *sfnt.Font, prog []*operation, start, done chan struct{}, digests []string, wg *sync.WaitGroup) {
+//
+// With loop > 0 the call is repeated back to back for that long (at most 400 times), so that the
+// goroutines of a case really execute inside the library at the same time; every repetition must
+// return the same value, otherwise the digest reported is "mixed:" followed by all digests seen.
+func worker(f *sfnt.Font, prog []*operation, start, done chan struct{}, digests []string, wg *sync.WaitGroup, loop time.Duration) {
 	defer wg.Done()
 	for i, op := range prog {
 		<-start
-		digests[i] = call(op, f)
+		d := call(op, f)
+		if loop > 0 {
+			var others []string
+			t0 := time.Now()
+			for n := 0; n < 400 && time.Since(t0) < loop; n++ {
+				if d2 := call(op, f); d2 != d && !slices.Contains(others, d2) {
+					others = append(others, d2)
+				}
+			}
+			if len(others) > 0 {
+				sort.Strings(others)
+				d = "mixed:" + d + "," + strings.Join(others, ",")
+			}
+		}
+		digests[i] = d
 		done <- struct{}{}
 	}
 }
